@@ -14,7 +14,35 @@ import (
 func c07Extra(r *core.Run) {
 	p := r.P
 	const mrPkg = "lib/mr"
-	isOptSlice := func(t types.Type) bool { return strings.HasSuffix(t.String(), "lib/mr.Option") && strings.HasPrefix(t.String(), "[]") }
+	isOptSlice := func(t types.Type) bool {
+		return strings.HasSuffix(t.String(), "lib/mr.Option") && strings.HasPrefix(t.String(), "[]")
+	}
+
+	r.Check("D3/K1/workers-option-always-applied", "an option of lib/mr that sets the worker count sets it on every path: a function storing mapReduceOptions.workers from a caller-supplied number has no exit without that store (a value below the minimum is clamped, never ignored in favour of the default of 16)", func(o *core.O) {
+		n := 0
+		isStore := core.IsStoreToField("mapReduceOptions.workers")
+		for _, f := range p.PkgFuncs(mrPkg) {
+			sts := core.StoresToField(f, "mapReduceOptions.workers")
+			if len(sts) == 0 {
+				continue
+			}
+			fromCaller := false
+			for _, st := range sts {
+				if _, isConst := core.ConstInt(st.Val); !isConst {
+					fromCaller = true
+				}
+			}
+			if !fromCaller {
+				continue // the constructor's default
+			}
+			n++
+			r.Fn(core.FuncName(f))
+			if w := core.MustPass(core.Entry(f), isStore, core.IsExit); w != nil {
+				o.Fail(p.InstrPos(w), "%s can return without setting mapReduceOptions.workers: the configured worker count is silently dropped and the default applies (more mappers run at once than configured)", core.FuncName(f))
+			}
+		}
+		o.Site(n, mrPkg+": functions setting the worker count from their caller")
+	})
 
 	r.Check("D3/K9/options-forwarded", "every entry point of lib/mr that accepts options hands them on (to the function it delegates to, or to buildOptions): worker bound and context are those the caller configured", func(o *core.O) {
 		n := 0
